@@ -585,7 +585,6 @@ func (p *Prog) reachableFromMain() map[*ssa.Function]bool {
 	return reach
 }
 
-
 // requestEntries: the functions through which a client request enters the node: the repo's implementations of the
 // gRPC service interfaces (interfaces named *Server of the etcd and kubebrain API packages) and every function or
 // function literal with the net/http handler signature.
